@@ -91,4 +91,6 @@ def selftest():
     # published MD6-256 digests of "" and "abc" (default rounds, L = 64)
     assert md6(b"", d=256).hex() == "bca38b24a804aa37d821d31af00f5598230122c5bbfc4c4ad5ed40e4258f04ca"
     assert md6(b"abc", d=256).hex() == "230637d4e6845cf0d092b558e87625f03881dd53a7439da34cf3b94ed0d8b2c5"
+    assert md6(b"The quick brown fox jumps over the lazy dog", d=256).hex() == "977592608c45c9923340338450fdcccc21a68888e1e6350e133c5186cd9736ee"
+    assert md6(b"", d=128).hex() == "032f75b3ca02a393196a818328bd32e8" and md6(b"", d=512).hex().startswith("6b7f33821a2c060ecdd81aefddea2fd3c4720270")
     return "MD6 Q from sqrt(6); 3 worked examples of the report (tree, keyed, sequential), MD6-256('') and ('abc')"
